@@ -36,7 +36,7 @@ theorem clsFNode_true {env : Env} {c : ClsId} {names : List NameId} {v : Val} {f
 theorem unionNode_true {sp : USpell} {n : Nat} {m : Raw} (h : unionNode sp n m = .ok true) : m = .ok true := by
   unfold unionNode at h
   split at h; · simp at h
-  cases sp <;> simp_all [cfg_special_union, cfg_special_optional]
+  simpa [cfg_unionDispatch] using h
 
 theorem literalNode_true {ls : List Lit} {v : Val} (h : literalNode ls v = .ok true) :
     ∃ l, v = .lit l ∧ ls.any (litEq l) = true := by
@@ -307,5 +307,41 @@ theorem sound_raw (env : Env) (orc : Nat → Val → Raw) (hw : WfEnv env) :
     · exact Or.inl (ih1 hns.1 hwf hp h1)
     · exact Or.inr (ih3 hns.2 hwf hp h2)
   all_goals (intros; trivial)
+
+/-- semantic guard for top-level string annotations: a matching (base-)class name identifies the class the context
+    binds to that name.  Its complement is the region `strAnnNameCollision`. -/
+def StrAnnGuard (env : Env) : Prop :=
+  ∀ (t : ClsId) (n : NameId), (env.name t = n ∨ env.baseName t = some n) →
+    ∃ c, env.ctx n = some c ∧ env.sub t c = true
+
+
+/-- soundness of `_check_type` (the statement of C01; restated in Props/C01.lean) -/
+theorem sound_checkType (env : Env) (orc : Nat → Val → Raw) (hw : WfEnv env) (hs : StrAnnGuard env)
+    (a : Ann) (v : Val) (hns : a.noSpecial = true) (hwf : v.wf env = true) (hp : v.plain = true) :
+    checkType env orc a v = .accept → conforms env a v = true := by
+  intro h
+  cases a
+  case none => simp_all [checkType, conforms]
+  case strAnn n =>
+    simp only [checkType] at h
+    simp only [conforms]
+    split at h
+    · rename_i hb
+      simp only [cfg_strGuard, ↓reduceIte] at h
+      split at h <;> simp at h
+      rename_i hname
+      obtain ⟨c, hc, hsub⟩ := hs _ _ (Or.inl (by simpa using hname))
+      simp [hc, hsub]
+    · rename_i bn hb
+      split at h <;> simp at h
+      rename_i hname
+      have : env.name (v.typeOf env) = n ∨ env.baseName (v.typeOf env) = some n := by
+        simp at hname; rcases hname with h1 | h1
+        · exact Or.inl h1
+        · exact Or.inr (by rw [hb, h1])
+      obtain ⟨c, hc, hsub⟩ := hs _ _ this
+      simp [hc, hsub]
+  all_goals (simp only [checkType, wrap_accept] at h; exact (sound_raw env orc hw).1 _ _ v hns hwf hp h)
+
 
 end PedVerif.Checker
